@@ -575,6 +575,10 @@ class Fn:
             return 'sizeof(%s)' % n.get('of', '?')
         if k == 'init':
             return '%s(%s)' % (n.get('f', n.get('base', '?')), f(n['e']) if 'e' in n else '')
+        if k == 'depmem':
+            return '%s.%s' % (f(n['base']) if 'base' in n else 'this', n['name'])
+        if k == 'unresolved':
+            return n['name']
         if k == 'recovery':
             return '<recovery %s>' % ', '.join(f(a) for a in n.get('subs', []))
         if k == 'throw':
